@@ -95,7 +95,29 @@ func c18PropBase(race bool) *pProp {
 				{Name: "Pp", Expr: &gen.Expr{Kind: gen.Choice, Subs: []*gen.Expr{seq(lit("a"), ref("Pp"), lit("b")), seq(lit("a"), ref("Pp"), lit("c")), lit("a")}}},
 			}}
 			g.Finish()
-			return []*genParser{newGenParser("pbomb", g, nil)}
+			// statements resynchronised by one recovery expression that contains a
+			// choice, the label thrown from two different rules: whatever a parser
+			// remembers per expression node (a statistics key, a cached name) is
+			// computed while one rule or the other is on top of the rule stack
+			cls := func() *gen.Expr {
+				return &gen.Expr{Kind: gen.Plus, Subs: []*gen.Expr{{Kind: gen.Class, Ranges: []rune{'a', 'b'}}}}
+			}
+			choice := func(xs ...*gen.Expr) *gen.Expr { return &gen.Expr{Kind: gen.Choice, Subs: xs} }
+			opt := func(x *gen.Expr) *gen.Expr { return &gen.Expr{Kind: gen.Opt, Subs: []*gen.Expr{x}} }
+			stmt := func(kw string) *gen.Expr {
+				return &gen.Expr{Kind: gen.Action, Subs: []*gen.Expr{seq(lit(kw), cls(), choice(lit(";"), &gen.Expr{Kind: gen.Throw, Name: "semi"}), opt(lit("\n")))}}
+			}
+			g2 := &gen.Grammar{Rules: []*gen.Rule{
+				{Name: "Start", Expr: &gen.Expr{Kind: gen.Action, Subs: []*gen.Expr{seq(&gen.Expr{Kind: gen.Star, Subs: []*gen.Expr{ref("Stmt")}}, &gen.Expr{Kind: gen.Not, Subs: []*gen.Expr{{Kind: gen.Any}}})}}},
+				{Name: "Stmt", Expr: &gen.Expr{Kind: gen.Recover, Labels: []string{"semi"}, Subs: []*gen.Expr{
+					choice(ref("Let"), ref("Call")),
+					choice(&gen.Expr{Kind: gen.Action, Subs: []*gen.Expr{lit("\n")}}, &gen.Expr{Kind: gen.Not, Subs: []*gen.Expr{{Kind: gen.Any}}}),
+				}}},
+				{Name: "Let", Expr: stmt("l")},
+				{Name: "Call", Expr: stmt("c")},
+			}}
+			g2.Finish()
+			return []*genParser{newGenParser("pbomb", g, nil), newGenParser("precov", g2, nil)}
 		},
 		mkReqs: func(r *rng, gp *genParser, p pParams) []*parsersim.Request {
 			var reqs []*parsersim.Request
@@ -123,6 +145,30 @@ func c18PropBase(race bool) *pProp {
 					sc := simrt.SchedConfig{Strategy: simrt.StratRandom, SwitchOneIn: []int{20, 100, 400, 3000}[r.intn(4)]}
 					reqs = append(reqs, &parsersim.Request{ID: fmt.Sprintf("c18-%s-s%d", gp.Name, k), Kind: "c18", Parser: gp.Name,
 						Clients: clients, Sched: sc, Pool: simsync.PoolConfig{}, Seed: r.u64(), StepCap: 400000000})
+				}
+				return reqs
+			}
+			if gp.Name == "precov" {
+				ins := [][]byte{[]byte("lab\ncab\n"), []byte("cab\nlab\n"), []byte("la;cb;"), []byte("cb\n"), []byte("lb"), []byte("ca;lab\n"), []byte("lab\nx")}
+				for k := 0; k < 6; k++ {
+					var clients [][]parsersim.Call
+					nc := 2 + r.intn(3)
+					for c := 0; c < nc; c++ {
+						var calls []parsersim.Call
+						for j := 1 + r.intn(2); j > 0; j-- {
+							plan := drawPlan(r, false)
+							plan.MaxEvents = 300
+							in := ins[r.intn(len(ins))]
+							if len(calls) == 0 && c < 2 {
+								in = ins[c] // one client meets the recovery expression from Let first, another from Call
+							}
+							calls = append(calls, parsersim.Call{Input: in, Opts: parsersim.Opts{Stats: true, Memoize: r.chance(1, 4)}, Plan: plan})
+						}
+						clients = append(clients, calls)
+					}
+					sc := simrt.SchedConfig{Strategy: simrt.StratRandom, SwitchOneIn: []int{2, 5, 20, 100}[r.intn(4)]}
+					reqs = append(reqs, &parsersim.Request{ID: fmt.Sprintf("c18-%s-s%d", gp.Name, k), Kind: "c18", Parser: gp.Name,
+						Clients: clients, Sched: sc, Pool: simsync.PoolConfig{}, Seed: r.u64(), StepCap: 60000})
 				}
 				return reqs
 			}
@@ -248,37 +294,52 @@ func runC18(tier string) int {
 // "Alone" then also means alone in the process: state that the package keeps
 // between calls cannot hide on both sides of the comparison.
 func c18FreshSolo(pp *pProp, pw *parserWorld, reqs []*parsersim.Request, owner []*genParser, outs []pOutcome, env []string, rep *reporter, seed uint64, stats map[string]int) int {
-	var idx []int
+	// every call of a sampled schedule is made in a process of its own: what a
+	// package remembers from its first call (a cached name, a statistics key)
+	// is remembered from that call alone
+	type at struct{ i, ci, cj int }
+	var idx []at
 	var solo []*parsersim.Request
 	for i, o := range outs {
 		if i%3 != 0 || o.Status != "ok" || len(o.Resp.Digests) == 0 {
 			continue
 		}
-		rq := *reqs[i]
-		rq.Kind = "c18solo"
-		rq.ID = reqs[i].ID + "-solo"
-		idx = append(idx, i)
-		solo = append(solo, &rq)
+		for ci := range reqs[i].Clients {
+			for cj := range reqs[i].Clients[ci] {
+				rq := *reqs[i]
+				rq.Kind = "c18solo"
+				rq.ID = fmt.Sprintf("%s-solo-%d-%d", reqs[i].ID, ci, cj)
+				rq.Clients = [][]parsersim.Call{{reqs[i].Clients[ci][cj]}}
+				idx = append(idx, at{i, ci, cj})
+				solo = append(solo, &rq)
+			}
+		}
 	}
 	souts := runParserCases(pw, solo, 120*time.Second, env, 1)
 	runs := 0
 	reported := 0
+	diffs := map[int]string{}
+	seen := map[int]bool{}
+	var order []int
 	for k, so := range souts {
-		i := idx[k]
-		if so.Status != "ok" {
+		a := idx[k]
+		if so.Status != "ok" || len(so.Resp.Digests) == 0 || len(so.Resp.Digests[0]) == 0 {
 			continue
 		}
 		runs += so.Resp.Runs
-		stats["schedules_compared_with_fresh_process_solo"]++
-		a, b := outs[i].Resp.Digests, so.Resp.Digests
-		diff := ""
-		for ci := range a {
-			for cj := range a[ci] {
-				if ci < len(b) && cj < len(b[ci]) && a[ci][cj] != b[ci][cj] && a[ci][cj] != "capped" && b[ci][cj] != "capped" && a[ci][cj] != "lost" {
-					diff = fmt.Sprintf("client %d call %d", ci, cj)
-				}
-			}
+		if !seen[a.i] {
+			seen[a.i] = true
+			order = append(order, a.i)
+			stats["schedules_compared_with_fresh_process_solo"]++
 		}
+		stats["calls_compared_with_fresh_process_solo"]++
+		x, y := outs[a.i].Resp.Digests[a.ci][a.cj], so.Resp.Digests[0][0]
+		if x != y && x != "capped" && y != "capped" && x != "lost" {
+			diffs[a.i] = fmt.Sprintf("client %d call %d", a.ci, a.cj)
+		}
+	}
+	for _, i := range order {
+		diff := diffs[i]
 		if diff == "" {
 			continue
 		}
